@@ -89,6 +89,25 @@ def replay_mean(sc):
     return bool(details), "; ".join(details[:3]) if details else "mean identity holds on HEM/CGMY"
 
 
+def replay_untouched(sc):
+    """real models: building (and initialising) a chain must leave the caller's model as it was; a second chain from the same model
+    object on other truncation bounds then has the right mean"""
+    details = []
+    for name, model in concrete_models().items():
+        trip = model.levy_triplet
+        before = (trip.representation, float(trip.a), trip.nu, float(trip.nu.integrate(0.05, np.inf)))
+        for axis in (np.array([-0.6, -0.1, 0.0, 0.1, 0.5]), np.array([-0.2, -0.1, 0.0, 0.1, 0.25])):
+            grid = GS.CTMCGrid(h=0.1, origin_coordinate=2, axes=[axis.copy()])
+            proc = MC.MarkovChainProcess(model, SamplingMethod.INVERSION, grid)
+            proc.initialisation(StubProduct())
+            after = (trip.representation, float(model.levy_triplet.a), model.levy_triplet.nu, float(model.levy_triplet.nu.integrate(0.05, np.inf)))
+            if after[0] != before[0] or abs(after[1] - before[1]) > 1e-15 or after[2] is not before[2] or abs(after[3] - before[3]) > 1e-12:
+                details.append(f"{name}: after MarkovChainProcess(model, INVERSION, grid on [{axis[0]}, {axis[-1]}]) the caller's triplet is "
+                               f"({after[0].name}, a={after[1]!r}, nu(0.05,inf)={after[3]!r}); it was ({before[0].name}, a={before[1]!r}, nu(0.05,inf)={before[3]!r})")
+                break
+    return bool(details), "; ".join(details[:2])
+
+
 def h_mean(ctx, nl, nr, rep, fa, fv, refine=0):
     axis, h, pivot = sym_axis(ctx, nl, nr)
     grid = make_grid(h, pivot, [axis])
@@ -106,6 +125,10 @@ def h_mean(ctx, nl, nr, rep, fa, fv, refine=0):
         raise PathAbort()
     proc.model.drift = model.drift
     proc.initialisation(StubProduct())
+    trip = model.levy_triplet
+    ctx.prove("C04.building_a_chain_leaves_the_callers_model_untouched",
+              AND(trip.representation == REPS[rep], EQ(trip.a, a), trip.nu is nu, proc.model is not model, proc.model.levy_triplet is not trip),
+              info={"rep": rep}, replay=(replay_untouched, lambda m: {}))
     ax, piv = grid.axes[0], grid.origin_coordinate.value
     l, r = ax[0], ax[len(ax) - 1]
     q = SF.create_q_vector(proc.model.levy_triplet.nu, grid)
@@ -197,7 +220,7 @@ def harnesses(tier):
     return hs
 
 
-EXPECT = ["C04.mu_h_is_rate_weighted_state_sum", "C04.chain_mean_equals_truncated_process_mean", "C04.no_variance_added_for_finite_variation",
+EXPECT = ["C04.building_a_chain_leaves_the_callers_model_untouched", "C04.mu_h_is_rate_weighted_state_sum", "C04.chain_mean_equals_truncated_process_mean", "C04.no_variance_added_for_finite_variation",
           "C04.small_jump_variance_added_for_infinite_variation", "C04.copula_margin_mean"]
 
 
